@@ -36,8 +36,9 @@ pub struct Context<const N: usize> {
 
 impl<const N: usize> Context<N> {
     pub fn new(key: [u8; N], identity_keys: Vec<[u8; N]>, kind: CipherKind, user_manager: Option<Arc<ServerUserManager<N>>>) -> Self {
-        // a request whose timestamp was up to 30 s ahead when it was accepted stays acceptable for another 60 s
-        let nonce_cache = Mutex::new(LruCache::with_expiry_duration_and_capacity(Duration::from_secs(60), 102400));
+        // a request whose timestamp was up to 30 s ahead when it was accepted stays acceptable for up to 61 s
+        // (timestamps are compared in whole seconds)
+        let nonce_cache = Mutex::new(LruCache::with_expiry_duration_and_capacity(Duration::from_secs(62), 102400));
         Self { key, identity_keys, kind, user_manager, nonce_cache }
     }
 
